@@ -77,6 +77,10 @@ where
         if !self.visit_index(&index) {
             self.process_unvisited_index(index, handler)
         } else {
+            // An edge can be visited before its node (when it is the search
+            // origin). It still links to the remaining edges of the node.
+            self.algorithm
+                .expand(index, self.graph, self.storage, false);
             Ok(true)
         }
     }
